@@ -25,6 +25,10 @@ const lpPacketOverhead = 1 + 3
 const pitTokenOverhead = 1 + 1 + 6
 const congestionMarkOverhead = 3 + 1 + 8
 
+// maxFragCount is the largest FragCount accepted by reassembly. A sender with an MTU of at
+// least 128 never needs more than MaxNDNPacketSize/32 fragments for one packet.
+const maxFragCount = defn.MaxNDNPacketSize / 32
+
 const (
 	FaceFlagLocalFields = 1 << iota
 	FaceFlagLpReliabilityEnabled
@@ -396,10 +400,19 @@ func (l *NDNLPLinkService) reassemblePacket(
 	fragIndex uint64,
 	fragCount uint64,
 ) enc.Wire {
-	_, hasSequence := l.partialMessageStore[baseSequence]
+	// FragIndex and FragCount come from the peer: check them before they size or index anything
+	if fragCount > maxFragCount || fragIndex >= fragCount {
+		core.LogWarn(l, "Received fragment with invalid FragIndex/FragCount - DROP")
+		return nil
+	}
+
+	partial, hasSequence := l.partialMessageStore[baseSequence]
 	if !hasSequence {
 		// Create map entry
 		l.partialMessageStore[baseSequence] = make([][]byte, fragCount)
+	} else if uint64(len(partial)) != fragCount {
+		core.LogWarn(l, "Received fragment whose FragCount differs from earlier fragments - DROP")
+		return nil
 	}
 
 	// Insert into PartialMessageStore
